@@ -154,6 +154,10 @@ func checkC19(ctx *Ctx) {
 	for k := 0; k <= 4; k++ {
 		k := k
 		jobs = append(jobs, func() { concatE2E(ctx, k) })
+		if k == 2 {
+			jobs = append(jobs, func() { concatGroups(ctx, []string{"", "a", "", "b", "a", ""}) }, func() { concatGroups(ctx, []string{"a", "a", "b"}) },
+				func() { concatGroups(ctx, []string{"", ""}) }, func() { concatGroups(ctx, []string{"x", "", "", "y", ""}) })
+		}
 	}
 	jobs = append(jobs, func() { sourcesE2E(ctx) })
 	parallel(len(jobs), 8, func(i int) {
@@ -456,6 +460,46 @@ func concatE2E(ctx *Ctx, k int) {
 	model := ctx.Drv.Ask("concat", strings.Join(fields, US))
 	if model != bytesField(string(b)) {
 		ctx.Res.Disagree(Violation{What: fmt.Sprintf("Concatenator output %q differs from the model", string(b)), Class: "c19.concat", Witness: k})
+	}
+}
+
+// Concatenator with GroupByTag over a stream that mixes tagged and untagged files: every file goes, whole and once,
+// into the output of its own group (untagged ones into the main output), in arrival order
+func concatGroups(ctx *Ctx, groups []string) {
+	paths := []string{}
+	pre := map[string]string{}
+	vals := []string{}
+	want := map[string]string{"all.out": ""}
+	for i, g := range groups {
+		p := fmt.Sprintf("g%d.txt", i)
+		paths = append(paths, p)
+		pre[p] = fmt.Sprintf("content-%d", i)
+		out := "all.out"
+		if g != "" {
+			vals = append(vals, p+"="+g)
+			out = "all.out.grp_" + g
+		}
+		want[out] += pre[p] + "\n"
+	}
+	if len(vals) == 0 {
+		vals = []string{"none=none"}
+	}
+	d := &Desc{Name: "concatgrp", Max: 2, Nodes: []Node{{Name: "s", Kind: "filesource", Paths: paths}, {Name: "tg", Kind: "maptotags", Arg: "grp", Values: vals},
+		{Name: "cc", Kind: "concat", Arg: "all.out", Values: []string{"grp"}}},
+		Edges: []Edge{{From: "s.out", To: "tg.in"}, {From: "tg.out", To: "cc.in"}}}
+	rr := RunWorkflow(d, RunOpts{Pre: pre})
+	defer os.RemoveAll(rr.Dir)
+	ctx.Res.Eval(fmt.Sprintf("concat groups=%v", groups), len(groups) >= 2, map[string]interface{}{"kind": "concatenator-groups", "groups": groups})
+	ctx.Res.Count("e2e=concat-groupbytag")
+	if rr.Exit != 0 {
+		ctx.Res.Violate(Violation{What: fmt.Sprintf("Concatenator with GroupByTag exited %d: %s", rr.Exit, firstLine(rr.Stderr)), Class: "c19.concat-failed", Witness: groups})
+		return
+	}
+	for out, w := range want {
+		got, _ := readFile(rr.Dir, out)
+		if got != w {
+			ctx.Res.Violate(Violation{What: fmt.Sprintf("Concatenator (GroupByTag) wrote %q into %s, its group's files concatenate to %q (groups in arrival order: %q)", got, out, w, groups), Class: "c19.concat-groups", Witness: groups})
+		}
 	}
 }
 
